@@ -105,16 +105,15 @@ class World:
             p.set_value(k, v, sections[k])
         return p
 
-    def biogeme(self, with_sim=False, **over):
+    def biogeme(self, with_sim=False, weighted=False, **over):
         from biogeme.biogeme import BIOGEME
-        from biogeme.expressions import exp
+        from biogeme.expressions import exp, Variable
 
         lp, b = self.logprob()
-        f = {'log_like': lp, 'weight': None}
         if with_sim:
-            from biogeme.expressions import Variable
-
             f = {'log_like': lp, 'prob': exp(lp), 'util': b['b1'] * Variable('x1')}
+        elif weighted:
+            f = {'log_like': lp, 'weight': Variable('w')}
         else:
             f = lp
         bg = BIOGEME(self.database(), f, parameters=self.parameters(**over))
@@ -384,6 +383,26 @@ def _db(label, W, args=(), kwargs=None, panel=False, post=None, prep=None):
     return V(label, recv=d, args=args, kwargs=kwargs, post=post)
 
 
+def _prep_remove(d):
+    from biogeme.expressions import Variable
+
+    d.remove(Variable('x1') > 2.2)
+
+
+def _prep_draws(d):
+    d.generate_draws({'xi': 'NORMAL', 'u': 'UNIFORM'}, ['xi', 'u'], 6)
+
+
+# receiver states of a Database: (label, panel?, preparation). The generated table gives every individual 2-4 rows,
+# so that in panel mode the number of individuals differs from the number of rows.
+DB_STATES = [('cross-section', False, None), ('panel-unequal-rows-per-individual', True, None), ('after-remove', False, _prep_remove),
+             ('panel-after-remove', True, _prep_remove), ('with-draws-generated', False, _prep_draws)]
+
+
+def _db_states(W, args=(), kwargs=None, states=DB_STATES, prefix=''):
+    return [_db(prefix + lab, W, args, kwargs, panel=pan, prep=prep) for lab, pan, prep in states]
+
+
 def f_db_expression(arity):
     def fx(W):
         from biogeme.expressions import Variable, Beta, exp
@@ -410,30 +429,33 @@ def f_db_avail(W):
 
 
 def f_db_scale(W):
-    return [_db('scale-big', W, ['big', 0.001]), _db('unknown-column', W, ['zz', 2.0]), _db('keywords', W, kwargs=dict(column='x1', scale=round(W.rng.uniform(2, 9), 1)))]
+    return [_db('panel-scale-x2', W, ['x2', 10.0], panel=True), _db('scale-big', W, ['big', 0.001]), _db('unknown-column', W, ['zz', 2.0]), _db('keywords', W, kwargs=dict(column='x1', scale=round(W.rng.uniform(2, 9), 1)))]
 
 
 def f_db_suggest(W):
-    return [_db('default', W), _db('report-all-columns', W, kwargs=dict(columns=['big', 'x1'], report_all=True)), _db('unknown', W, [['zz']])]
+    return [_db('default', W), _db('report-all-columns', W, kwargs=dict(columns=['big', 'x1'], report_all=True)), _db('unknown', W, [['zz']]),
+            _db('panel-after-remove', W, panel=True, prep=_prep_remove)]
 
 
 def f_db_sample(W):
-    return [_db('default-size', W), _db('given-size', W, [W.rng.randint(3, 12)])]
+    return [_db('default-size', W), _db('given-size', W, [W.rng.randint(3, 12)]), _db('after-remove', W, prep=_prep_remove),
+            _db('panel-keyword-size', W, kwargs=dict(size=W.rng.randint(3, 12)), panel=True)]
 
 
 def f_db_sample_ind(W):
-    return [_db('panel-default', W, panel=True), _db('panel-size', W, kwargs=dict(size=W.rng.randint(2, 6)), panel=True), _db('not-panel', W)]
+    return [_db('panel-default', W, panel=True), _db('panel-size', W, kwargs=dict(size=W.rng.randint(2, 6)), panel=True), _db('not-panel', W),
+            _db('panel-after-remove', W, panel=True, prep=_prep_remove)]
 
 
 def f_db_noargs_both(W):
-    return [_db('cross-section', W), _db('panel', W, panel=True)]
+    return _db_states(W)
 
 
 def f_db_build_panel_map(W):
     def shuffle(d):
         d.data = d.data.sample(frac=1.0, random_state=W.seed).reset_index(drop=True)
 
-    return [_db('panel-shuffled', W, panel=True, prep=shuffle), _db('cross-section', W)]
+    return [_db('panel-shuffled', W, panel=True, prep=shuffle), _db('cross-section', W), _db('panel-after-remove', W, panel=True, prep=_prep_remove)]
 
 
 def f_db_rng(W):
@@ -499,30 +521,52 @@ def f_idmanager(W):
 # BIOGEME
 # ---------------------------------------------------------------------------
 
-def _bg(label, W, args=(), kwargs=None, post=None, with_sim=False, **over):
-    bg = W.biogeme(with_sim=with_sim, **over)
+def _bg(label, W, args=(), kwargs=None, post=None, with_sim=False, weighted=False, prep=None, **over):
+    bg = W.biogeme(with_sim=with_sim, weighted=weighted, **over)
+    if prep:
+        import warnings
+
+        with warnings.catch_warnings():
+            warnings.simplefilter('ignore')
+            prep(bg)
     a = args(bg) if callable(args) else args
     return V(label, recv=bg, args=a, kwargs=kwargs, post=post)
 
 
+def _prep_init(bg):
+    bg.calculate_init_likelihood()
+
+
+def _prep_estimated(bg):
+    bg.quick_estimate()
+
+
+def _prep_moved(bg):
+    bg.change_init_values({'b1': -0.2, 'asc2': 0.3})
+
+
 def f_bg_bounds(W):
-    return [_bg('bounded', W, ['asc2']), _bg('half-bounded', W, ['asc3']), _bg('unknown', W, ['nosuch'])]
+    return [_bg('bounded', W, ['asc2']), _bg('half-bounded', W, ['asc3']), _bg('unknown', W, ['nosuch']),
+            _bg('after-estimation', W, ['b1'], prep=_prep_estimated)]
 
 
 def f_bg_null(W):
     from biogeme.expressions import Variable
 
-    return [_bg('mixed-availability', W, [{1: 1, 2: Variable('av2'), 3: 1}])]
+    return [_bg('mixed-availability', W, [{1: 1, 2: Variable('av2'), 3: 1}]),
+            _bg('weighted-model-after-init-likelihood', W, [{1: 1, 2: Variable('av2'), 3: 1}], weighted=True, prep=_prep_init)]
 
 
 def f_bg_noargs(W):
-    return [_bg('default', W)]
+    return [_bg('fresh', W), _bg('weighted-model', W, weighted=True), _bg('initial-values-changed', W, prep=_prep_moved),
+            _bg('after-estimation', W, prep=_prep_estimated)]
 
 
 def f_bg_like(W):
     return [_bg('unscaled', W, lambda bg: [W.x0(bg), False]),
             _bg('scaled-keywords', W, kwargs=dict(x=[-0.3, 0.1, 0.2], scaled=True)),
             _bg('wrong-length', W, [[0.1], False]),
+            _bg('weighted-model', W, lambda bg: [W.x0(bg), True], weighted=True),
             _bg('batch', W, lambda bg: [W.x0(bg), False, 0.5])]
 
 
@@ -543,11 +587,12 @@ def f_bg_check(W):
 
 
 def f_bg_random_init(W):
-    return [_bg('default-bound', W), _bg('given-bound', W, [round(W.rng.uniform(1, 5), 1)])]
+    return [_bg('default-bound', W), _bg('given-bound', W, [round(W.rng.uniform(1, 5), 1)]),
+            _bg('after-estimation-keyword', W, kwargs=dict(default_bound=2.0), prep=_prep_estimated)]
 
 
 def f_bg_quick(W):
-    return [_bg('default', W)]
+    return [_bg('fresh', W), _bg('weighted-model-initial-values-changed', W, weighted=True, prep=_prep_moved)]
 
 
 def f_bg_ci(W):
@@ -566,8 +611,26 @@ def _res(label, W, args=(), kwargs=None, bootstrap=True):
     return V(label, recv=r, args=args, kwargs=kwargs)
 
 
+def _res_roundtrip(W):
+    """results object rebuilt from what a pickle file gives back"""
+    import pickle
+    from biogeme.results import bioResults
+
+    return bioResults(the_raw_results=pickle.loads(pickle.dumps(W.results().data)))
+
+
+def _res_quick(W):
+    """results of quick_estimate: no second derivatives, no variance-covariance matrix"""
+    import warnings
+
+    with warnings.catch_warnings():
+        warnings.simplefilter('ignore')
+        return W.biogeme().quick_estimate()
+
+
 def f_res_noargs(W):
-    return [_res('with-bootstrap', W), _res('without-bootstrap', W, bootstrap=False)]
+    return [_res('with-bootstrap', W), _res('without-bootstrap', W, bootstrap=False), V('read-back-from-pickle', recv=_res_roundtrip(W)),
+            V('quick-estimate-without-second-derivatives', recv=_res_quick(W))]
 
 
 def f_res_bool(name):
@@ -872,7 +935,7 @@ def expression_variants(alias: str, clsname: str, W: World):
         out = [V('attach-manager', recv=e, args=[m]), V('reset-to-none', recv=inst(prepared=True), args=[None]),
                V('keyword', recv=inst(prepared=True), kwargs=dict(id_manager=None))]
     elif alias in ('requiresDraws', 'getClassName', 'countPanelTrajectoryExpressions'):
-        out = [V('plain', recv=inst()), V('data-free', recv=inst(True))]
+        out = [V('plain', recv=inst()), V('data-free', recv=inst(True)), V('numbered', recv=inst(prepared=True))]
     elif alias == 'embedExpression':
         out = [V('own-class', recv=inst(), args=[clsname]), V('beta', recv=inst(), args=['Beta']), V('montecarlo', recv=inst(), kwargs=dict(t='MonteCarlo'))]
     elif alias == 'getElementaryExpression':
